@@ -334,6 +334,17 @@ def _r4(ctx):
             if isinstance(par, ast.Compare):
                 ctx.node_ok("R4", f, n, "set used in a comparison/membership test")
                 continue
+            if isinstance(par, ast.Attribute) and par.value is cur and par.attr in ORDER_FREE_SET_METHODS and isinstance(
+                    getattr(par, "_parent", None), ast.Call):
+                ctx.node_ok("R4", f, n, "set used through the order-independent method .%s()" % par.attr)
+                continue
+            if isinstance(par, (ast.BinOp, ast.BoolOp, ast.UnaryOp, ast.If, ast.IfExp, ast.While)) and not isinstance(
+                    getattr(par, "op", None), (ast.Add, ast.Mult, ast.Mod)):
+                # set algebra / truthiness: still a set (or a boolean); judged where the result is used
+                gp = getattr(par, "_parent", None)
+                if isinstance(par, (ast.If, ast.IfExp, ast.While, ast.BoolOp, ast.UnaryOp)) or isinstance(gp, (ast.If, ast.IfExp, ast.While, ast.Compare)):
+                    ctx.node_ok("R4", f, n, "set used for its truth value / in set algebra under a test")
+                    continue
             if not (isinstance(par, ast.Assign) and isinstance(par.targets[0], ast.Name)):
                 ctx.node_bad("R4", f, n, "a set-ordered value is used directly in report construction: `%s`" % U(par)[:100])
                 continue
@@ -352,6 +363,11 @@ def _r4(ctx):
                         continue
                     if isinstance(up, ast.Call) and isinstance(up.func, ast.Name) and up.func.id in ("sorted", "len", "set"):
                         continue
+                    if isinstance(up, ast.Attribute) and up.value is u and up.attr in ORDER_FREE_SET_METHODS and isinstance(
+                            getattr(up, "_parent", None), ast.Call):
+                        continue
+                    if isinstance(up, (ast.If, ast.IfExp, ast.While, ast.UnaryOp, ast.BoolOp)):
+                        continue        # truth value only
                     if isinstance(up, ast.Call) and u in up.args:
                         # passed on: the callee must use the parameter for membership only
                         cn = pm.call_name(up).split(".")[-1]
@@ -372,6 +388,9 @@ def _r4(ctx):
             else:
                 ctx.node_ok("R4", f, n, "`%s` (set-ordered) is only tested for membership" % var)
     ctx.floor("R4", "set constructions in report code", n_sets, 1)
+
+
+ORDER_FREE_SET_METHODS = {"issubset", "issuperset", "isdisjoint", "__contains__", "add", "discard", "update", "copy"}
 
 
 def _set_ordered(e):
